@@ -1484,6 +1484,7 @@ def dict_items(eng, d):
     parent = d if isinstance(d, Box) else None
     it = IterV(_simp_n(ty.n(e)), lambda i: (wrap(ty.k, ty.key_at(e, _int(i))),
                                            wrap(ty.v, ty.at(e, ty.key_at(e, _int(i))), parent, ty.key_at(e, _int(i)))))
+    it.items_of = d
     return it
 
 
@@ -1810,6 +1811,8 @@ def comprehension(eng, node, env, kind):
             raise EngineError('filtered %s comprehension over a symbolic sequence' % kind)
         res = filtered_iter(eng, it, g, env, elem)
         return iter_to_list(eng, res) if kind == 'list' else res
+    if kind == 'dict':
+        return dict_from_pairs(eng, it, g, env, elem)
     if kind not in ('gen', 'list'):
         raise EngineError('%s comprehension over a symbolic sequence' % kind)
 
@@ -1825,6 +1828,41 @@ def comprehension(eng, node, env, kind):
     if kind == 'list':
         return iter_to_list(eng, res)
     return res
+
+def dict_from_pairs(eng, it, g, env, elem):
+    """{k(x): v(x) for x in S} over a symbolic S: a fresh map of which only true facts are stated (an under-specification:
+    the insertion order is not described): every key(i) is present; a key maps to the value of its last occurrence; every
+    key of the map comes from some element (Skolem witness)."""
+    def kv(i):
+        sub = Env(env, {})
+        eng.assign(g.target, it.get(i), sub)
+        eng.spec += 1
+        try:
+            return elem(sub)
+        finally:
+            eng.spec -= 1
+    pk, pv = kv(z3.Int('probe!'))
+    kt, vt = type_of(pk), type_of(pv)
+    if kt is None or vt is None:
+        raise EngineError('cannot type dict comprehension')
+    mt = TMap(kt, vt)
+    m = eng.fresh(mt, 'dcomp')
+    n = _int(it.n)
+    i, j = z3.FreshInt('di'), z3.FreshInt('dj')
+    w = z3.Function('dcomp_w!%d' % eng.fresh_n, kt.sort(), z3.IntSort())
+    eng.fresh_n += 1
+    ki, vi = kv(i)
+    kj, _ = kv(j)
+    ke, ve = to_z3(ki, kt), to_z3(vi, vt)
+    eng.assume(z3.ForAll([i], z3.Implies(z3.And(0 <= i, i < n), mt.has(m, ke))))
+    eng.assume(z3.ForAll([i], z3.Implies(z3.And(0 <= i, i < n, z3.ForAll([j], z3.Implies(z3.And(i < j, j < n), to_z3(kj, kt) != ke))),
+                                         mt.at(m, ke) == ve)))
+    kk = z3.FreshConst(kt.sort(), 'dk')
+    kw, _ = kv(w(kk))
+    eng.assume(z3.ForAll([kk], z3.Implies(mt.has(m, kk), z3.And(0 <= w(kk), w(kk) < n, to_z3(kw, kt) == kk))))
+    eng.assume(mt.n(m) <= z3.If(n > 0, n, 0))
+    return Box(mt, m)
+
 
 def filtered_iter(eng, it, g, env, elem):
     """(elem for x in S if p(x)) over a symbolic S: the selected elements in order.  Modelled by an increasing index
